@@ -795,6 +795,8 @@ impl<'s> Semantics<'s> {
                 block.assign(temp.clone(), Expr::zext(base.bits(), offset.clone())?);
                 offset = temp.into();
             }
+            // the bit offset is taken modulo the operand size
+            let offset = Expr::and(offset, expr_const(base.bits() as u64 - 1, base.bits()))?;
 
             let temp = self.temp(0, base.bits());
             block.assign(temp.clone(), Expr::shr(base, offset)?);
@@ -839,6 +841,8 @@ impl<'s> Semantics<'s> {
                 block.assign(temp.clone(), Expr::zext(base.bits(), offset.clone())?);
                 offset = temp.into();
             }
+            // the bit offset is taken modulo the operand size
+            let offset = Expr::and(offset, expr_const(base.bits() as u64 - 1, base.bits()))?;
 
             // this handles the assign to CF
             let temp = self.temp(1, base.bits());
@@ -888,6 +892,8 @@ impl<'s> Semantics<'s> {
                 block.assign(temp.clone(), Expr::zext(base.bits(), offset.clone())?);
                 offset = temp.into();
             }
+            // the bit offset is taken modulo the operand size
+            let offset = Expr::and(offset, expr_const(base.bits() as u64 - 1, base.bits()))?;
 
             // this handles the assign to CF
             let temp = self.temp(1, base.bits());
@@ -939,6 +945,8 @@ impl<'s> Semantics<'s> {
                 block.assign(temp.clone(), Expr::zext(base.bits(), offset.clone())?);
                 offset = temp.into();
             }
+            // the bit offset is taken modulo the operand size
+            let offset = Expr::and(offset, expr_const(base.bits() as u64 - 1, base.bits()))?;
 
             // this handles the assign to CF
             let temp = self.temp(1, base.bits());
